@@ -27,7 +27,7 @@ func TestMain(m *testing.M) { fx.Main(m, "C15") }
 var allOps = []string{"Login", "NewProxy", "CloseProxy", "Ping", "NewWorkConn", "NewUserConn"}
 
 // outcomes of one plugin for one consultation
-var outcomes = []string{"accept", "accept", "accept", "modify", "modify", "reject", "reject-unchange", "http500", "http404", "http302", "reset", "badjson", "wrongtypes", "emptybody", "truncated"}
+var outcomes = []string{"accept", "accept", "accept", "modify", "modify", "reject", "reject-unchange", "http500", "http404", "http302", "reset", "badjson", "wrongtypes", "emptybody", "truncated", "trailing", "trailing-reject"}
 
 type PluginSpec struct {
 	Ops     []string          `json:"ops"`
@@ -150,6 +150,10 @@ func (st *stub) handle(w http.ResponseWriter, r *http.Request) {
 		_, _ = w.Write([]byte(`{"reject":false,"unchange":tru`))
 	case "wrongtypes":
 		_, _ = w.Write([]byte(`{"reject":"no","unchange":1}`))
+	case "trailing": // a complete accepting object followed by more bytes: not a valid JSON document
+		_, _ = w.Write([]byte(`{"reject":false,"unchange":true}<html>502 Bad Gateway</html>`))
+	case "trailing-reject":
+		_, _ = w.Write([]byte(`{"reject":false,"unchange":true}{"reject":true,"reject_reason":"second opinion"}`))
 	case "emptybody":
 		w.WriteHeader(200)
 	case "truncated":
